@@ -105,6 +105,9 @@ type c18Result struct {
 }
 
 // c18Run executes one operation through fio.
+// goroutine count used by the PAR2 operations of the current world
+var c18G = 2
+
 func c18Run(fmtName, op, index string, inputs []string, fio *faultIO, nvols int) (r c18Result) {
 	defer func() {
 		if x := recover(); x != nil {
@@ -116,12 +119,12 @@ func c18Run(fmtName, op, index string, inputs []string, fio *faultIO, nvols int)
 	if fmtName == "par2" {
 		switch op {
 		case "create":
-			err = par2.VerifCreate(fio, index, inputs, par2.CreateOptions{SliceByteCount: 16, NumParityShards: nvols, NumGoroutines: 2})
+			err = par2.VerifCreate(fio, index, inputs, par2.CreateOptions{SliceByteCount: 16, NumParityShards: nvols, NumGoroutines: c18G})
 		case "verify":
-			_, err = par2.VerifVerify(fio, index, par2.VerifyOptions{NumGoroutines: 2})
+			_, err = par2.VerifVerify(fio, index, par2.VerifyOptions{NumGoroutines: c18G})
 		case "repair":
 			var res par2.RepairResult
-			res, err = par2.VerifRepair(fio, index, par2.RepairOptions{NumGoroutines: 2})
+			res, err = par2.VerifRepair(fio, index, par2.RepairOptions{NumGoroutines: c18G})
 			for _, p := range res.RepairedPaths {
 				r.repaired = append(r.repaired, relTo(dir, p))
 			}
@@ -167,316 +170,347 @@ func runC18(args []string) error {
 	defer lg.Close()
 	rng := rand.New(rand.NewSource(c.seed*89 + 5))
 	thorough := c.tier == "thorough"
-	names := []string{"a.bin", "b.bin", "c.bin"}
-	prot := map[string][]byte{}
-	for i, n := range names {
-		d := make([]byte, []int{40, 25, 33}[i])
-		rng.Read(d)
-		prot[n] = d
+	// worlds: the small one (every tier) and, in the thorough tier, a larger one (more files, more volumes, more I/O
+	// calls to fail, another goroutine count)
+	type worldDef struct {
+		names    []string
+		sizes    []int
+		r2, nv1  int
+		g        int
+		fileBase string
 	}
-	for _, fmtName := range []string{"par2", "par1"} {
-		base := filepath.Join(c.dir, "c18-"+fmtName)
-		var a2 *arch
-		var a1 *arch1
-		nv := 2
-		if fmtName == "par2" {
-			if a2, err = buildArch(filepath.Join(base, "pristine"), names, prot, 16, 4, 1, "set"); err != nil {
-				return err
-			}
-			nv = len(a2.VolFiles)
-		} else {
-			if a1, err = buildArch1(filepath.Join(base, "pristine"), names, prot, 2, "set"); err != nil {
-				return err
-			}
+	worlds := []worldDef{{[]string{"a.bin", "b.bin", "c.bin"}, []int{40, 25, 33}, 4, 2, 2, "set"}}
+	if thorough {
+		worlds = append(worlds, worldDef{[]string{"a.bin", "b.bin", "c.bin", "d.bin", "e e.bin", "f"}, []int{40, 25, 33, 70, 5, 16}, 20, 4, 3, "backup.tar"})
+	}
+	for wi, wd := range worlds {
+		names := wd.names
+		c18G = wd.g
+		prot := map[string][]byte{}
+		for i, n := range names {
+			d := make([]byte, wd.sizes[i])
+			rng.Read(d)
+			prot[n] = d
 		}
-		flipped := func(n string) []byte {
-			d := append([]byte{}, prot[n]...)
-			d[3] ^= 0x44
-			return d
-		}
-		states := []c18State{
-			{"intact", map[string][]byte{"a.bin": prot["a.bin"], "b.bin": prot["b.bin"], "c.bin": prot["c.bin"]}, nv},
-			{"one-missing", map[string][]byte{"a.bin": prot["a.bin"], "b.bin": nil, "c.bin": prot["c.bin"]}, nv},
-			{"two-damaged", map[string][]byte{"a.bin": flipped("a.bin"), "b.bin": nil, "c.bin": prot["c.bin"]}, nv},
-			{"one-missing-one-volume", map[string][]byte{"a.bin": prot["a.bin"], "b.bin": prot["b.bin"], "c.bin": nil}, 1},
-			{"unrepairable", map[string][]byte{"a.bin": nil, "b.bin": nil, "c.bin": nil}, 1},
-		}
-		if thorough {
-			states = append(states,
-				c18State{"all-volumes-gone", map[string][]byte{"a.bin": flipped("a.bin"), "b.bin": prot["b.bin"], "c.bin": prot["c.bin"]}, 0},
-				c18State{"swapped", map[string][]byte{"a.bin": prot["b.bin"], "b.bin": prot["a.bin"], "c.bin": prot["c.bin"]}, nv})
-		}
-		materialise := func(dir string, st c18State) (string, error) {
+		for _, fmtName := range []string{"par2", "par1"} {
+			base := filepath.Join(c.dir, fmt.Sprintf("c18-%d-%s", wi, fmtName))
+			var a2 *arch
+			var a1 *arch1
+			nv := wd.nv1
 			if fmtName == "par2" {
-				return filepath.Join(dir, a2.Index), a2.materialise(dir, st.disk, a2.VolFiles[:st.nvols])
-			}
-			var vols []int
-			for v := 1; v <= st.nvols; v++ {
-				vols = append(vols, v)
-			}
-			return filepath.Join(dir, a1.Index), a1.materialise(dir, st.disk, vols)
-		}
-		newIO := func(failAt int, kind string) *faultIO {
-			f := &faultIO{failAt: failAt, kind: kind}
-			if fmtName == "par2" {
-				f.p2 = par2.VerifDefaultFileIO()
-			} else {
-				f.p1 = par1.VerifDefaultFileIO()
-			}
-			return f
-		}
-		readProt := func(dir string) map[string][]byte {
-			out := map[string][]byte{}
-			for _, n := range names {
-				b, err := ioutil.ReadFile(filepath.Join(dir, n))
-				if err != nil {
-					out[n] = nil
-				} else {
-					out[n] = append([]byte{}, b...)
-				}
-			}
-			return out
-		}
-		allIntact := func(d map[string][]byte) bool {
-			for _, n := range names {
-				if d[n] == nil || !bytes.Equal(d[n], prot[n]) {
-					return false
-				}
-			}
-			return true
-		}
-		for _, st := range states {
-			for _, op := range []string{"verify", "repair"} {
-				dir := filepath.Join(base, "run")
-				// fault-free baseline: call count, shape, outcome
-				index, err := materialise(dir, st)
-				if err != nil {
+				if a2, err = buildArch(filepath.Join(base, "pristine"), names, prot, 16, wd.r2, 1, wd.fileBase); err != nil {
 					return err
 				}
-				b0 := newIO(0, "")
-				base0 := c18Run(fmtName, op, index, nil, b0, nv)
-				full := b0.kinds()
-				baseRestored := allIntact(readProt(dir))
-				nReads, nWrites, nFind := 0, 0, 0
-				for _, k := range full {
-					switch k {
-					case "read":
-						nReads++
-					case "write":
-						nWrites++
-					case "find":
-						nFind++
+				nv = len(a2.VolFiles)
+			} else {
+				if a1, err = buildArch1(filepath.Join(base, "pristine"), names, prot, wd.nv1, wd.fileBase); err != nil {
+					return err
+				}
+			}
+			flipped := func(n string) []byte {
+				d := append([]byte{}, prot[n]...)
+				d[3] ^= 0x44
+				return d
+			}
+			// every file intact except the overrides
+			mkDisk := func(over map[string][]byte) map[string][]byte {
+				d := map[string][]byte{}
+				for _, n := range names {
+					d[n] = prot[n]
+				}
+				for n, b := range over {
+					d[n] = b
+				}
+				return d
+			}
+			allNil := map[string][]byte{}
+			for _, n := range names {
+				allNil[n] = nil
+			}
+			states := []c18State{
+				{"intact", mkDisk(nil), nv},
+				{"one-missing", mkDisk(map[string][]byte{"b.bin": nil}), nv},
+				{"two-damaged", mkDisk(map[string][]byte{"a.bin": flipped("a.bin"), "b.bin": nil}), nv},
+				{"one-missing-one-volume", mkDisk(map[string][]byte{"c.bin": nil}), 1},
+				{"unrepairable", mkDisk(allNil), 1},
+			}
+			if thorough {
+				states = append(states,
+					c18State{"all-volumes-gone", mkDisk(map[string][]byte{"a.bin": flipped("a.bin")}), 0},
+					c18State{"swapped", mkDisk(map[string][]byte{"a.bin": prot["b.bin"], "b.bin": prot["a.bin"]}), nv})
+			}
+			materialise := func(dir string, st c18State) (string, error) {
+				if fmtName == "par2" {
+					return filepath.Join(dir, a2.Index), a2.materialise(dir, st.disk, a2.VolFiles[:st.nvols])
+				}
+				var vols []int
+				for v := 1; v <= st.nvols; v++ {
+					vols = append(vols, v)
+				}
+				return filepath.Join(dir, a1.Index), a1.materialise(dir, st.disk, vols)
+			}
+			newIO := func(failAt int, kind string) *faultIO {
+				f := &faultIO{failAt: failAt, kind: kind}
+				if fmtName == "par2" {
+					f.p2 = par2.VerifDefaultFileIO()
+				} else {
+					f.p1 = par1.VerifDefaultFileIO()
+				}
+				return f
+			}
+			readProt := func(dir string) map[string][]byte {
+				out := map[string][]byte{}
+				for _, n := range names {
+					b, err := ioutil.ReadFile(filepath.Join(dir, n))
+					if err != nil {
+						out[n] = nil
+					} else {
+						out[n] = append([]byte{}, b...)
 					}
 				}
-				shapeN := len(names)
-				shapeM := nReads - 1 - shapeN
-				if shapeM < 0 {
-					// the run stopped early even without a fault (e.g. a legitimate error): skip injecting beyond it
-					shapeM = 0
-				}
-				type plan struct {
-					k1   int
-					kd1  string
-					k2   int
-					kd2  string
-					pair bool
-				}
-				var plans []plan
-				for k := 0; k <= len(full); k++ {
-					plans = append(plans, plan{k1: k, kd1: "err"})
-					if k > 0 && full[k-1] == "write" {
-						plans = append(plans, plan{k1: k, kd1: "partial"})
+				return out
+			}
+			allIntact := func(d map[string][]byte) bool {
+				for _, n := range names {
+					if d[n] == nil || !bytes.Equal(d[n], prot[n]) {
+						return false
 					}
 				}
-				// pairs: a fault, then a rerun with another fault, then the clean rerun
-				npairs := 6
-				if thorough {
-					npairs = 40
-				}
-				for i := 0; i < npairs && len(full) > 1; i++ {
-					k1 := 1 + rng.Intn(len(full))
-					k2 := 1 + rng.Intn(len(full))
-					kd1, kd2 := "err", "err"
-					if full[k1-1] == "write" && rng.Intn(2) == 0 {
-						kd1 = "partial"
-					}
-					if k2 <= len(full) && full[k2-1] == "write" && rng.Intn(2) == 0 {
-						kd2 = "partial"
-					}
-					plans = append(plans, plan{k1, kd1, k2, kd2, true})
-				}
-				for _, pl := range plans {
+				return true
+			}
+			for _, st := range states {
+				for _, op := range []string{"verify", "repair"} {
+					dir := filepath.Join(base, "run")
+					// fault-free baseline: call count, shape, outcome
 					index, err := materialise(dir, st)
 					if err != nil {
 						return err
 					}
-					before := readProt(dir)
-					snapB, _ := sandbox.Take(dir)
-					fio := newIO(pl.k1, pl.kd1)
-					res := c18Run(fmtName, op, index, nil, fio, nv)
-					if pl.pair {
-						f2 := newIO(pl.k2, pl.kd2)
-						c18Run(fmtName, op, index, nil, f2, nv)
-					}
-					after := readProt(dir)
-					snapA, _ := sandbox.Take(dir)
-					changed := []string{}
-					completedOK := true
-					cr, del, chg, tch := sandbox.Diff(snapB, snapA)
-					for _, p := range append(append(append(cr, del...), chg...), tch...) {
-						if p != "." {
-							changed = append(changed, p)
+					b0 := newIO(0, "")
+					base0 := c18Run(fmtName, op, index, nil, b0, nv)
+					full := b0.kinds()
+					baseRestored := allIntact(readProt(dir))
+					nReads, nWrites, nFind := 0, 0, 0
+					for _, k := range full {
+						switch k {
+						case "read":
+							nReads++
+						case "write":
+							nWrites++
+						case "find":
+							nFind++
 						}
 					}
-					sort.Strings(changed)
-					completed := []string{}
-					for _, w := range fio.wrote {
-						rp := relTo(dir, w)
-						completed = append(completed, rp)
-						if !pl.pair && (after[rp] == nil || !bytes.Equal(after[rp], prot[rp])) {
-							completedOK = false
+					shapeN := len(names)
+					shapeM := nReads - 1 - shapeN
+					if shapeM < 0 {
+						// the run stopped early even without a fault (e.g. a legitimate error): skip injecting beyond it
+						shapeM = 0
+					}
+					type plan struct {
+						k1   int
+						kd1  string
+						k2   int
+						kd2  string
+						pair bool
+					}
+					var plans []plan
+					for k := 0; k <= len(full); k++ {
+						plans = append(plans, plan{k1: k, kd1: "err"})
+						if k > 0 && full[k-1] == "write" {
+							plans = append(plans, plan{k1: k, kd1: "partial"})
 						}
 					}
-					_ = before
-					// after the fault(s): is the data still within capacity?  (ground truth, par2 by the observer)
-					expectedOK := false
-					if op == "repair" && !base0.err {
-						if fmtName == "par2" {
-							ps := &protSet{S: a2.S, Order: a2.Order, Data: prot}
-							tr := computeTruth(ps, after)
-							nb := 0
-							for _, v := range a2.VolFiles[:st.nvols] {
-								nb += len(a2.VolExps[v])
+					// pairs: a fault, then a rerun with another fault, then the clean rerun
+					npairs := 6
+					if thorough {
+						npairs = 40
+					}
+					for i := 0; i < npairs && len(full) > 1; i++ {
+						k1 := 1 + rng.Intn(len(full))
+						k2 := 1 + rng.Intn(len(full))
+						kd1, kd2 := "err", "err"
+						if full[k1-1] == "write" && rng.Intn(2) == 0 {
+							kd1 = "partial"
+						}
+						if k2 <= len(full) && full[k2-1] == "write" && rng.Intn(2) == 0 {
+							kd2 = "partial"
+						}
+						plans = append(plans, plan{k1, kd1, k2, kd2, true})
+					}
+					for _, pl := range plans {
+						index, err := materialise(dir, st)
+						if err != nil {
+							return err
+						}
+						before := readProt(dir)
+						snapB, _ := sandbox.Take(dir)
+						fio := newIO(pl.k1, pl.kd1)
+						res := c18Run(fmtName, op, index, nil, fio, nv)
+						if pl.pair {
+							f2 := newIO(pl.k2, pl.kd2)
+							c18Run(fmtName, op, index, nil, f2, nv)
+						}
+						after := readProt(dir)
+						snapA, _ := sandbox.Take(dir)
+						changed := []string{}
+						completedOK := true
+						cr, del, chg, tch := sandbox.Diff(snapB, snapA)
+						for _, p := range append(append(append(cr, del...), chg...), tch...) {
+							if p != "." {
+								changed = append(changed, p)
 							}
-							expectedOK = tr.N-tr.NSurv <= nb
-						} else {
-							bad := 0
-							for _, n := range names {
-								if after[n] == nil || !bytes.Equal(after[n], prot[n]) {
-									bad++
+						}
+						sort.Strings(changed)
+						completed := []string{}
+						for _, w := range fio.wrote {
+							rp := relTo(dir, w)
+							completed = append(completed, rp)
+							if !pl.pair && (after[rp] == nil || !bytes.Equal(after[rp], prot[rp])) {
+								completedOK = false
+							}
+						}
+						_ = before
+						// after the fault(s): is the data still within capacity?  (ground truth, par2 by the observer)
+						expectedOK := false
+						if op == "repair" && !base0.err {
+							if fmtName == "par2" {
+								ps := &protSet{S: a2.S, Order: a2.Order, Data: prot}
+								tr := computeTruth(ps, after)
+								nb := 0
+								for _, v := range a2.VolFiles[:st.nvols] {
+									nb += len(a2.VolExps[v])
 								}
+								expectedOK = tr.N-tr.NSurv <= nb
+							} else {
+								bad := 0
+								for _, n := range names {
+									if after[n] == nil || !bytes.Equal(after[n], prot[n]) {
+										bad++
+									}
+								}
+								expectedOK = bad <= st.nvols
 							}
-							expectedOK = bad <= st.nvols
 						}
+						if op == "verify" {
+							expectedOK = !base0.err
+						}
+						// clean rerun
+						r0 := newIO(0, "")
+						rr := c18Run(fmtName, op, index, nil, r0, nv)
+						same := rr.err == base0.err
+						if op == "repair" && !rr.err {
+							same = same && allIntact(readProt(dir)) == baseRestored
+						}
+						failed := ""
+						if fio.failed != "" && pl.k1 > 0 && pl.k1 <= len(full) && full[pl.k1-1] == "write" {
+							failed = relTo(dir, fio.failed)
+						}
+						if pl.pair {
+							// only the binding and crash clauses are judged on the first run of a pair; the pair is about the clean rerun
+							changed = []string{}
+							failed = ""
+							completed = []string{}
+						}
+						lg.Emit(tracelog.M{"ev": "fault", "fmt": fmtName, "op": op, "state": st.name, "n": shapeN, "m": shapeM, "w": nWrites, "v": 0,
+							"calls": fio.kinds(), "k": pl.k1, "fk": pl.kd1, "pair": pl.pair, "k2": pl.k2, "fk2": pl.kd2,
+							"res":         tracelog.M{"err": res.err, "errtext": tail(res.errText, 80), "repaired": res.repaired},
+							"baseline":    tracelog.M{"err": base0.err, "errtext": tail(base0.errText, 80), "calls": len(full)},
+							"failed_path": failed, "changed": changed, "completed_writes": completed, "completed_ok": completedOK,
+							"rerun":    tracelog.M{"err": rr.err, "errtext": tail(rr.errText, 80), "expected_ok": expectedOK, "same_as_fault_free": same},
+							"panicked": res.panicked || rr.panicked})
 					}
-					if op == "verify" {
-						expectedOK = !base0.err
-					}
-					// clean rerun
-					r0 := newIO(0, "")
-					rr := c18Run(fmtName, op, index, nil, r0, nv)
-					same := rr.err == base0.err
-					if op == "repair" && !rr.err {
-						same = same && allIntact(readProt(dir)) == baseRestored
-					}
-					failed := ""
-					if fio.failed != "" && pl.k1 > 0 && pl.k1 <= len(full) && full[pl.k1-1] == "write" {
-						failed = relTo(dir, fio.failed)
-					}
-					if pl.pair {
-						// only the binding and crash clauses are judged on the first run of a pair; the pair is about the clean rerun
-						changed = []string{}
-						failed = ""
-						completed = []string{}
-					}
-					lg.Emit(tracelog.M{"ev": "fault", "fmt": fmtName, "op": op, "state": st.name, "n": shapeN, "m": shapeM, "w": nWrites, "v": 0,
-						"calls": fio.kinds(), "k": pl.k1, "fk": pl.kd1, "pair": pl.pair, "k2": pl.k2, "fk2": pl.kd2,
-						"res":         tracelog.M{"err": res.err, "errtext": tail(res.errText, 80), "repaired": res.repaired},
-						"baseline":    tracelog.M{"err": base0.err, "errtext": tail(base0.errText, 80), "calls": len(full)},
-						"failed_path": failed, "changed": changed, "completed_writes": completed, "completed_ok": completedOK,
-						"rerun":    tracelog.M{"err": rr.err, "errtext": tail(rr.errText, 80), "expected_ok": expectedOK, "same_as_fault_free": same},
-						"panicked": res.panicked || rr.panicked})
 				}
 			}
+			// Create: read(file)^n write(index) write(volume)^v
+			{
+				dir := filepath.Join(base, "create")
+				mk := func() ([]string, string, error) {
+					if err := sandbox.Fresh(dir); err != nil {
+						return nil, "", err
+					}
+					var in []string
+					for _, n := range names {
+						p := filepath.Join(dir, n)
+						ioutil.WriteFile(p, prot[n], 0644)
+						in = append(in, p)
+					}
+					ext := ".par2"
+					if fmtName == "par1" {
+						ext = ".par"
+					}
+					return in, filepath.Join(dir, "new"+ext), nil
+				}
+				in, index, err := mk()
+				if err != nil {
+					return err
+				}
+				cv := 3 + wi*4
+				b0 := newIO(0, "")
+				base0 := c18Run(fmtName, "create", index, in, b0, cv)
+				full := b0.kinds()
+				nW := 0
+				for _, k := range full {
+					if k == "write" {
+						nW++
+					}
+				}
+				golden, _ := sandbox.Take(dir)
+				for k := 0; k <= len(full); k++ {
+					kinds := []string{"err"}
+					if k > 0 && full[k-1] == "write" {
+						kinds = append(kinds, "partial")
+					}
+					for _, kd := range kinds {
+						in, index, err := mk()
+						if err != nil {
+							return err
+						}
+						snapB, _ := sandbox.Take(dir)
+						fio := newIO(k, kd)
+						res := c18Run(fmtName, "create", index, in, fio, cv)
+						snapA, _ := sandbox.Take(dir)
+						changed := []string{}
+						cr, del, chg, tch := sandbox.Diff(snapB, snapA)
+						for _, p := range append(append(append(cr, del...), chg...), tch...) {
+							if p != "." {
+								changed = append(changed, p)
+							}
+						}
+						completed := []string{}
+						completedOK := true
+						for _, w := range fio.wrote {
+							rp := relTo(dir, w)
+							completed = append(completed, rp)
+							if snapA[rp].SHA != golden[rp].SHA {
+								completedOK = false
+							}
+						}
+						failed := ""
+						if fio.failed != "" && k > 0 && full[k-1] == "write" {
+							failed = relTo(dir, fio.failed)
+						}
+						r0 := newIO(0, "")
+						rr := c18Run(fmtName, "create", index, in, r0, cv)
+						fin, _ := sandbox.Take(dir)
+						same := !rr.err
+						for p, e := range golden {
+							if fin[p].SHA != e.SHA {
+								same = false
+							}
+						}
+						lg.Emit(tracelog.M{"ev": "fault", "fmt": fmtName, "op": "create", "state": "fresh", "n": len(names), "m": 0, "w": 0, "v": nW - 1,
+							"calls": fio.kinds(), "k": k, "fk": kd, "pair": false, "k2": 0, "fk2": "",
+							"res":         tracelog.M{"err": res.err, "errtext": tail(res.errText, 80), "repaired": []string{}},
+							"baseline":    tracelog.M{"err": base0.err, "errtext": "", "calls": len(full)},
+							"failed_path": failed, "changed": changed, "completed_writes": completed, "completed_ok": completedOK,
+							"rerun":    tracelog.M{"err": rr.err, "errtext": tail(rr.errText, 80), "expected_ok": true, "same_as_fault_free": same},
+							"panicked": res.panicked || rr.panicked})
+					}
+				}
+			}
+			os.RemoveAll(base)
 		}
-		// Create: read(file)^n write(index) write(volume)^v
-		{
-			dir := filepath.Join(base, "create")
-			mk := func() ([]string, string, error) {
-				if err := sandbox.Fresh(dir); err != nil {
-					return nil, "", err
-				}
-				var in []string
-				for _, n := range names {
-					p := filepath.Join(dir, n)
-					ioutil.WriteFile(p, prot[n], 0644)
-					in = append(in, p)
-				}
-				ext := ".par2"
-				if fmtName == "par1" {
-					ext = ".par"
-				}
-				return in, filepath.Join(dir, "new"+ext), nil
-			}
-			in, index, err := mk()
-			if err != nil {
-				return err
-			}
-			cv := 3
-			b0 := newIO(0, "")
-			base0 := c18Run(fmtName, "create", index, in, b0, cv)
-			full := b0.kinds()
-			nW := 0
-			for _, k := range full {
-				if k == "write" {
-					nW++
-				}
-			}
-			golden, _ := sandbox.Take(dir)
-			for k := 0; k <= len(full); k++ {
-				kinds := []string{"err"}
-				if k > 0 && full[k-1] == "write" {
-					kinds = append(kinds, "partial")
-				}
-				for _, kd := range kinds {
-					in, index, err := mk()
-					if err != nil {
-						return err
-					}
-					snapB, _ := sandbox.Take(dir)
-					fio := newIO(k, kd)
-					res := c18Run(fmtName, "create", index, in, fio, cv)
-					snapA, _ := sandbox.Take(dir)
-					changed := []string{}
-					cr, del, chg, tch := sandbox.Diff(snapB, snapA)
-					for _, p := range append(append(append(cr, del...), chg...), tch...) {
-						if p != "." {
-							changed = append(changed, p)
-						}
-					}
-					completed := []string{}
-					completedOK := true
-					for _, w := range fio.wrote {
-						rp := relTo(dir, w)
-						completed = append(completed, rp)
-						if snapA[rp].SHA != golden[rp].SHA {
-							completedOK = false
-						}
-					}
-					failed := ""
-					if fio.failed != "" && k > 0 && full[k-1] == "write" {
-						failed = relTo(dir, fio.failed)
-					}
-					r0 := newIO(0, "")
-					rr := c18Run(fmtName, "create", index, in, r0, cv)
-					fin, _ := sandbox.Take(dir)
-					same := !rr.err
-					for p, e := range golden {
-						if fin[p].SHA != e.SHA {
-							same = false
-						}
-					}
-					lg.Emit(tracelog.M{"ev": "fault", "fmt": fmtName, "op": "create", "state": "fresh", "n": len(names), "m": 0, "w": 0, "v": nW - 1,
-						"calls": fio.kinds(), "k": k, "fk": kd, "pair": false, "k2": 0, "fk2": "",
-						"res":         tracelog.M{"err": res.err, "errtext": tail(res.errText, 80), "repaired": []string{}},
-						"baseline":    tracelog.M{"err": base0.err, "errtext": "", "calls": len(full)},
-						"failed_path": failed, "changed": changed, "completed_writes": completed, "completed_ok": completedOK,
-						"rerun":    tracelog.M{"err": rr.err, "errtext": tail(rr.errText, 80), "expected_ok": true, "same_as_fault_free": same},
-						"panicked": res.panicked || rr.panicked})
-				}
-			}
-		}
-		os.RemoveAll(base)
 	}
 	return nil
 }
